@@ -252,6 +252,16 @@ func streamDetect(c *corrOut, g *inputGen, r *rng, n int, thorough bool) {
 				if w > 0 && f[1] == "nil" {
 					c.addFinding(finding{Property: "C09", Class: "new", What: "nil message with non-zero width", Input: flag + " " + hexOf(b), Observed: out})
 				}
+				// each message accounts for the run it consumed: decoding exactly those
+				// bytes alone gives the same message (for the message kinds whose meaning
+				// does not depend on what follows: mouse, table keys, rune runs, pastes)
+				if !more && w > 0 && w < len(b) && (f[1] == "mouse" || f[1] == "key") && !(b[0] == 0x1b && w == 1) {
+					alone := implDetect(b[:w], false)
+					if alone != out {
+						c.addFinding(finding{Property: "C09", Class: "new", What: "a message does not account for the run of input it consumed (built from bytes beyond its width, which are then decoded again)",
+							Input: flag + " " + hexOf(b), Expected: "the consumed bytes alone decode to the same message: " + alone, Observed: out})
+					}
+				}
 			}
 		}
 		return out
@@ -338,8 +348,16 @@ func streamDetect(c *corrOut, g *inputGen, r *rng, n int, thorough bool) {
 	}
 	// huge numeric parameters
 	for _, s := range []string{"\x1b[<99999999999999999999;1;1M", "\x1b[<0;18446744073709551616;9223372036854775808m",
-		"\x1b[<0;9223372036854775807;9223372036854775806M", "\x1b[<00000;0;0M", "\x1b[<1;2;3", "\x1b[<1;2;3X", "\x1b[<;;M", "\x1b[<x1;2;3Mzz"} {
+		"\x1b[<0;9223372036854775807;9223372036854775806M", "\x1b[<00000;0;0M", "\x1b[<1;2;3", "\x1b[<1;2;3X", "\x1b[<;;M", "\x1b[<x1;2;3Mzz",
+		"\x1b[<0;33\x1b[<0;33;17M", "\x1b[<;1;2;3m!", "\x1b[<abc 10;20;30Mtail", "\x1b[<1;2\r3;4;5M"} {
 		both([]byte(s))
+	}
+	// SGR introducer, junk, then something that looks like a report later in the buffer
+	for i := 0; i < 60; i++ {
+		b := append([]byte("\x1b[<"), malformed(r, r.rangeIn(1, 6))...)
+		b = append(b, evSGR(r.intn(256), r.rangeIn(1, 300), r.rangeIn(1, 300), r.chance(1, 2)).bytes[3:]...)
+		b = append(b, malformed(r, r.intn(4))...)
+		both(b)
 	}
 	// random: structured, mutated, malformed
 	for c.count < n {
